@@ -30,15 +30,40 @@ Fixpoint doom_iter (g : dsg) (fuel : nat) (D : list node) : list node :=
   end.
 Definition doomed (g : dsg) (W : list node) : list node :=
   doom_iter g (length (nodes g)) (filter (conflicts g W) (map fst (nodes g))).
-Definition avail (g : dsg) (W : list node) (opts : list node) : list node :=
-  let D := doomed g W in filter (fun o => negb (memN o D)) opts.
+(* rem: the options the choice constraints have removed so far *)
+Definition avail (g : dsg) (W : list node) (rem : list node) (opts : list node) : list node :=
+  let D := doomed g W in filter (fun o => negb (memN o D) && negb (memN o rem)) opts.
+
+(* get_constraint_removed_options: choice c took option o; for every constraint that lists c, the options (by position in the
+   lists captured when the constraint was made) the other choices of that constraint lose *)
+Definition con_removed (cn : ccon) (c o : node) : list node :=
+  let entries := snd cn in
+  match index_of c (map fst entries) with
+  | None => []
+  | Some i =>
+      match nth_error entries i with
+      | None => []
+      | Some e_c =>
+          match index_of o (snd e_c) with
+          | None => []
+          | Some k =>
+              flat_map (fun p : nat * list nat =>
+                          match nth_error entries (fst p) with
+                          | Some e_j => flat_map (fun pos => match nth_error (snd e_j) pos with Some n => [n] | None => [] end) (snd p)
+                          | None => []
+                          end)
+                       (removed_options (fst cn) (map (fun e : node * list node => length (snd e)) entries) i k)
+          end
+      end
+  end.
+Definition cons_removed (g : dsg) (c o : node) : list node := flat_map (fun cn => con_removed cn c o) (cons g).
 
 Definition is_pending (s : assign) (W : list node) (v : gvar) : bool := memN (fst v) W && negb (assigned s (fst v)).
 
 (* the next choice: choices left with at most one option are resolved first (resolve_single_selection_choices runs after
    every application), otherwise the first active choice in choice order *)
-Definition next_choice (g : dsg) (s : assign) (W : list node) (vars : list gvar) : option gvar :=
-  match find (fun v => is_pending s W v && (length (avail g W (snd v)) <=? 1)%nat) vars with
+Definition next_choice (g : dsg) (s : assign) (W : list node) (rem : list node) (vars : list gvar) : option gvar :=
+  match find (fun v => is_pending s W v && (length (avail g W rem (snd v)) <=? 1)%nat) vars with
   | Some v => Some v
   | None => find (is_pending s W) vars
   end.
@@ -46,25 +71,26 @@ Definition next_choice (g : dsg) (s : assign) (W : list node) (vars : list gvar)
 Inductive tres := TInfeasible | TOk (s : assign) (taken : list (node * Z)).
 
 (* x: the requested option index per choice *)
-Fixpoint greedy (g : dsg) (vars : list gvar) (x : node -> Z) (fuel : nat) (s : assign) (taken : list (node * Z))
-  : option tres :=
+Fixpoint greedy (g : dsg) (vars : list gvar) (x : node -> Z) (fuel : nat) (s : assign) (rem : list node)
+         (taken : list (node * Z)) : option tres :=
   match closure g s with
   | None => None
   | Some W =>
-      match next_choice g s W vars with
+      match next_choice g s W rem vars with
       | None => Some (if final_ok g s W then TOk s taken else TInfeasible)
       | Some (c, opts) =>
           match fuel with
           | O => None
           | S f =>
-              match avail g W opts with
+              match avail g W rem opts with
               | [] => Some TInfeasible
-              | [o] => greedy g vars x f (s ++ [(c, o)]) taken
+              | [o] => greedy g vars x f (s ++ [(c, o)]) (rem ++ cons_removed g c o) taken
               | av =>
                   let i := x c in
                   if (0 <=? i)%Z then
                     match nth_error opts (Z.to_nat i) with
-                    | Some o => if memN o av then greedy g vars x f (s ++ [(c, o)]) (taken ++ [(c, i)])
+                    | Some o => if memN o av
+                                then greedy g vars x f (s ++ [(c, o)]) (rem ++ cons_removed g c o) (taken ++ [(c, i)])
                                 else Some TInfeasible
                     | None => Some TInfeasible
                     end
@@ -102,9 +128,11 @@ Definition respects_fixed (g : dsg) (vars : list gvar) (x : list Z) (fixed : lis
           (combine (combine vars x) fixed).
 
 (* one try: Some (imputed vector, instance) when the vector gives a feasible instance (that respects the fixed values) *)
-Definition try_vector (check_fixed : bool) (g : dsg) (vars : list gvar) (fixed : list bool) (x : list Z)
+(* vars: the choices in design-vector order (the analyzer lists them layer by layer); ovars: the same choices in the order
+   in which active choices are taken (get_ordered_next_choice_nodes: by decision id) *)
+Definition try_vector (check_fixed : bool) (g : dsg) (ovars vars : list gvar) (fixed : list bool) (x : list Z)
   : option (option (list Z * list node)) :=
-  match greedy g vars (req_of vars x) (length vars + 1) [] [] with
+  match greedy g ovars (req_of vars x) (length vars + 1) [] [] [] with
   | None => None
   | Some TInfeasible => Some None
   | Some (TOk s taken) =>
@@ -128,7 +156,7 @@ Fixpoint first_try {A} (f : list Z -> option (option A)) (l : list (list Z)) : o
   end.
 
 (* the decode: requested vector x over vars, fixed flags; None = the model gives up (fuel), Some None = no feasible vector *)
-Definition fast_decode (check_fixed : bool) (g : dsg) (vars : list gvar) (x : list Z) (fixed : list bool)
+Definition fast_decode (check_fixed : bool) (g : dsg) (ovars vars : list gvar) (x : list Z) (fixed : list bool)
   : option (option (list Z * list node)) :=
-  first_try (try_vector check_fixed g vars fixed)
+  first_try (try_vector check_fixed g ovars vars fixed)
             (neighborhood (map (fun p => (length (snd (fst (fst p))), snd (fst p), snd p)) (combine (combine vars x) fixed))).
